@@ -1,6 +1,5 @@
 package vsim
 
-
 import (
 	"fmt"
 	"time"
@@ -22,6 +21,10 @@ func init() {
 // with the numeric encodings a serialised client would produce.
 func runC20(c *Ctx) {
 	g := c.Gen
+	if g.Chance(1, 4) {
+		runC20b(c) // concurrent publishers and askers
+		return
+	}
 	strict := g.Chance(1, 6)
 	rc := &router.RealmConfig{URI: "r1", StrictURI: strict, AllowDisclose: true, AnonymousAuth: true,
 		Authenticators: []auth.Authenticator{&StaticAuth{Roles: seqRoles}}}
